@@ -950,22 +950,64 @@ func c07Stalled(rng *rand.Rand) (viol string, exercised bool, err error) {
 	var bad []string
 	late := map[string]bool{"p1": true, "p2": true}
 	consumed := make(chan struct{})
+	var afterFinished []string
 	go func() {
 		defer close(consumed)
 		ack, rsp := qr.AckCh(), qr.ResponseCh()
+		gotAck := func(a string, proven bool) {
+			if late[a] {
+				bad = append(bad, "ack from "+a)
+			} else if proven {
+				afterFinished = append(afterFinished, "ack from "+a)
+			}
+		}
+		gotRsp := func(r serf.NodeResponse, proven bool) {
+			if late[r.From] {
+				bad = append(bad, "response from "+r.From)
+			} else if proven {
+				afterFinished = append(afterFinished, "response from "+r.From)
+			}
+		}
 		for ack != nil || rsp != nil {
+			// Finished() is read first, then both streams are found empty: whatever this (only) reader
+			// receives afterwards was put on a stream after the query had finished - no timing assumption
+			fin := qr.Finished()
+			empty := false
 			select {
 			case a, ok := <-ack:
 				if !ok {
 					ack = nil
-				} else if late[a] {
-					bad = append(bad, "ack from "+a)
+				} else {
+					gotAck(a, false)
 				}
 			case r, ok := <-rsp:
 				if !ok {
 					rsp = nil
-				} else if late[r.From] {
-					bad = append(bad, "response from "+r.From)
+				} else {
+					gotRsp(r, false)
+				}
+			default:
+				empty = true
+			}
+			if !empty {
+				continue
+			}
+			if !fin {
+				time.Sleep(200 * time.Microsecond)
+				continue
+			}
+			select {
+			case a, ok := <-ack:
+				if !ok {
+					ack = nil
+				} else {
+					gotAck(a, true)
+				}
+			case r, ok := <-rsp:
+				if !ok {
+					rsp = nil
+				} else {
+					gotRsp(r, true)
 				}
 			}
 		}
@@ -989,17 +1031,37 @@ func c07Stalled(rng *rand.Rand) (viol string, exercised bool, err error) {
 	// (serf buffers up to 1024 events between itself and the application, so it takes more than
 	// that many incoming queries before a handler blocks)
 	var incomingDone atomic.Bool
+	var floodAt atomic.Uint32
 	g.Go(func() {
 		defer incomingDone.Store(true)
 		for k := uint32(0); k < 1100; k++ {
+			floodAt.Store(k)
 			nd.NotifyMsg(wire.Encode(wire.Query, &wire.MsgQuery{LTime: lt + 1, ID: 1000 + k, Addr: []byte{10, 0, 0, 10}, Port: 7946, SourceNode: "p0", Timeout: time.Second, Name: "incoming"}))
 		}
 	})
-	// an early, legitimate reply while the handler may already be stalled
-	early := rng.Intn(2) == 0
+	// early, legitimate replies handed over well before the deadline, while the handler may already be
+	// stalled: a stalled one is looked at only when the application resumes, i.e. after the query has
+	// finished, and must be dropped then (seeded C07-i: deadline compared with the arrival time)
+	early := rng.Intn(4) != 0
+	if early {
+		// wait until the flood has stopped making progress (a handler is blocked), if that happens in time
+		last, since := floodAt.Load(), time.Now()
+		for time.Now().Before(qr.Deadline().Add(-10*time.Millisecond)) && !incomingDone.Load() {
+			time.Sleep(200 * time.Microsecond)
+			if k := floodAt.Load(); k != last {
+				last, since = k, time.Now()
+			} else if time.Since(since) > 2*time.Millisecond {
+				break
+			}
+		}
+		early = time.Now().Before(qr.Deadline().Add(-8 * time.Millisecond))
+	}
 	if early {
 		g.Go(func() {
 			nd.NotifyMsg(wire.Encode(wire.QueryResponse, &wire.MsgQueryResponse{LTime: lt, ID: id, From: "p0", Payload: []byte("early")}))
+		})
+		g.Go(func() {
+			nd.NotifyMsg(wire.Encode(wire.QueryResponse, &wire.MsgQueryResponse{LTime: lt, ID: id, From: "p0", Flags: 1}))
 		})
 	}
 	for time.Now().Before(qr.Deadline().Add(5 * time.Millisecond)) {
@@ -1040,6 +1102,10 @@ func c07Stalled(rng *rand.Rand) (viol string, exercised bool, err error) {
 	}
 	close(stopDrain)
 	<-drained
+	if len(afterFinished) > 0 && len(bad) == 0 {
+		sort.Strings(afterFinished)
+		viol = fmt.Sprintf("query with a %v timeout; replies handed to the node before its deadline, while an incoming query was blocked on the application's full event channel, were put on the result streams after the query had finished (Finished() had returned true and both streams were empty) once the application resumed: %s", timeout, strings.Join(afterFinished, ", "))
+	}
 	if len(bad) > 0 {
 		sort.Strings(bad)
 		viol = fmt.Sprintf("query with a %v timeout; replies handed to the node 5 ms or more after its deadline, while an incoming query was blocked on the application's full event channel, were delivered once the application resumed: %s", timeout, strings.Join(bad, ", "))
